@@ -625,8 +625,6 @@ class BitStream(ConstBitStream, bitstring.BitArray):
 
         """
         bs = Bits._create_from_bitstype(bs)
-        if len(bs) == 0:
-            return
         if bs is self:
             bs = self._copy()
         if pos is None:
@@ -635,6 +633,8 @@ class BitStream(ConstBitStream, bitstring.BitArray):
             pos += len(self)
         if pos < 0 or pos > len(self):
             raise ValueError("Overwrite starts outside boundary of bitstring.")
+        if len(bs) == 0:
+            return
         self._overwrite(bs, pos)
         self._pos = pos + len(bs)
 
@@ -680,8 +680,6 @@ class BitStream(ConstBitStream, bitstring.BitArray):
 
         """
         bs = Bits._create_from_bitstype(bs)
-        if len(bs) == 0:
-            return
         if bs is self:
             bs = self._copy()
         if pos is None:
@@ -690,6 +688,8 @@ class BitStream(ConstBitStream, bitstring.BitArray):
             pos += len(self)
         if not 0 <= pos <= len(self):
             raise ValueError("Invalid insert position.")
+        if len(bs) == 0:
+            return
         self._insert(bs, pos)
         self._pos = pos + len(bs)
 
